@@ -95,6 +95,55 @@ func dumpOdt(els []odt.VerifElem) string {
 
 // ---- one generated document -------------------------------------------------------------
 
+// gridBase: documents with an index from here on are drawn by genGridDoc (tables that
+// combine horizontal and vertical merges); below it by genDoc.
+const gridBase = 2_000_000
+
+func docFor(r *hx.Rng, idx int) *ldoc {
+	if idx >= gridBase {
+		return genGridDoc(r, formatOf(idx))
+	}
+	return genDoc(r, formatOf(idx))
+}
+
+func parsedDocx(els []docx.VerifElem) []ptable {
+	var out []ptable
+	for _, e := range els {
+		if e.Kind != "tbl" {
+			continue
+		}
+		pt := ptable{}
+		for _, row := range e.Rows {
+			var cells []pcell
+			for _, c := range row {
+				cells = append(cells, pcell{Text: c.Text, CS: c.ColSpan, RS: c.RowSpan, Flag: c.Cont})
+			}
+			pt = append(pt, cells)
+		}
+		out = append(out, pt)
+	}
+	return out
+}
+
+func parsedOdt(els []odt.VerifElem) []ptable {
+	var out []ptable
+	for _, e := range els {
+		if e.Kind != "tbl" {
+			continue
+		}
+		pt := ptable{}
+		for _, row := range e.Rows {
+			var cells []pcell
+			for _, c := range row {
+				cells = append(cells, pcell{Text: c.Text, CS: c.ColSpan, RS: c.RowSpan, Flag: c.Covered})
+			}
+			pt = append(pt, cells)
+		}
+		out = append(out, pt)
+	}
+	return out
+}
+
 func formatOf(idx int) string {
 	if idx%2 == 0 {
 		return "docx"
@@ -107,7 +156,7 @@ func formatOf(idx int) string {
 func RunDoc(c *hx.Ctx, idx int, keep bool) {
 	r := c.Rng.Fork(uint64(idx))
 	F := formatOf(idx)
-	d := genDoc(r, F)
+	d := docFor(r, idx)
 	kase := docCase{Seed: c.Seed, Index: idx, Format: F}
 	path := filepath.Join(c.OutDir, fmt.Sprintf("doc-%d.%s", idx, F))
 	var opLine string
@@ -138,7 +187,9 @@ func RunDoc(c *hx.Ctx, idx int, keep bool) {
 				return
 			}
 			defer rd.Close()
-			implLine = dumpDocx(rd.VerifElements())
+			els := rd.VerifElements()
+			implLine = dumpDocx(els)
+			out.Parsed, out.HaveParsed = parsedDocx(els), true
 			rdText, _ = rd.Text()
 			rdMD, _ = rd.Markdown()
 		} else {
@@ -148,7 +199,9 @@ func RunDoc(c *hx.Ctx, idx int, keep bool) {
 				return
 			}
 			defer rd.Close()
-			implLine = dumpOdt(rd.VerifElements())
+			els := rd.VerifElements()
+			implLine = dumpOdt(els)
+			out.Parsed, out.HaveParsed = parsedOdt(els), true
 			rdText, _ = rd.Text()
 			rdMD, _ = rd.Markdown()
 		}
@@ -212,6 +265,9 @@ func stats(c *hx.Ctx, d *ldoc) {
 	if d.Fam != nil {
 		c.Count(d.Format + "-style-family")
 	}
+	if d.Grid {
+		c.Count(d.Format + "-merge-grid-document")
+	}
 	used := map[string]int{} // family styles used so far in document order (body and cells)
 	seenMulti := false
 	for _, bl := range d.Blocks {
@@ -229,6 +285,9 @@ func stats(c *hx.Ctx, d *ldoc) {
 				}
 			}
 			c.Count(d.Format + "-table")
+			for _, k := range bl.T.mergeClasses() {
+				c.Count(d.Format + "-" + k)
+			}
 			if seenMulti {
 				c.Count(d.Format + "-table-after-multipara-table")
 			}
@@ -356,7 +415,45 @@ func oneCell(paras ...string) *lcell {
 	return c
 }
 
-// witnessDocs are minimal documents for the four quoted defects (and their ODT twins).
+// anc is one authored cell of a fixed table: position, spans (0 = 1) and its token.
+type anc struct {
+	R, C, RS, CS int
+	Tok          string
+}
+
+// gridTable builds a fixed table from its anchors; every other position is covered
+// by the merge it lies in.
+func gridTable(rows, cols int, cells ...anc) *ltable {
+	t := &ltable{R: rows, C: cols, Cells: map[[2]int]*lcell{}, Cover: map[[2]int][2]int{}}
+	for _, a := range cells {
+		rs, cs := max(a.RS, 1), max(a.CS, 1)
+		t.place(a.R, a.C, rs, cs)
+		t.Cells[[2]int{a.R, a.C}].Paras = []lpara{{Kind: "p", Runs: tx(a.Tok)}}
+	}
+	return t
+}
+
+// mergeWitness: four small tables in which a vertical merge has a different number
+// of cells to its left in its start row and in a continuation row.
+func mergeWitness(F string) *ldoc {
+	// [A 1x2][B 2x1] / [c][d]^ / [e][f][g]: column span in the start row only
+	ta := gridTable(3, 3, anc{0, 0, 1, 2, "G001x"}, anc{0, 2, 2, 1, "G002x"}, anc{1, 0, 0, 0, "G003x"}, anc{1, 1, 0, 0, "G004x"},
+		anc{2, 0, 0, 0, "G005x"}, anc{2, 1, 0, 0, "G006x"}, anc{2, 2, 0, 0, "G007x"})
+	// [P][Q][R 2x1] / [s 1x2]^: column span in the continuation row only
+	tb := gridTable(2, 3, anc{0, 0, 0, 0, "G011x"}, anc{0, 1, 0, 0, "G012x"}, anc{0, 2, 2, 1, "G013x"}, anc{1, 0, 1, 2, "G014x"})
+	// [a 1x2][b][V 3x1] / [c][d 1x2]^ / [e 1x3]^: spans of other widths in every row, a merge of three rows
+	tc := gridTable(3, 4, anc{0, 0, 1, 2, "G021x"}, anc{0, 2, 0, 0, "G022x"}, anc{0, 3, 3, 1, "G023x"},
+		anc{1, 0, 0, 0, "G024x"}, anc{1, 1, 1, 2, "G025x"}, anc{2, 0, 1, 3, "G026x"})
+	// [V 2x1][x 1x2][W 3x2] / ^[y][z]^ / [u 1x3]^ / [k][l 1x4]: two vertical merges, the second two columns wide
+	td := gridTable(4, 5, anc{0, 0, 2, 1, "G031x"}, anc{0, 1, 1, 2, "G032x"}, anc{0, 3, 3, 2, "G033x"},
+		anc{1, 1, 0, 0, "G034x"}, anc{1, 2, 0, 0, "G035x"}, anc{2, 0, 1, 3, "G036x"},
+		anc{3, 0, 0, 0, "G037x"}, anc{3, 1, 1, 4, "G038x"})
+	return &ldoc{Format: F, Blocks: []lblock{{T: ta}, {P: &lpara{Kind: "p", Runs: tx("G010x")}}, {T: tb},
+		{P: &lpara{Kind: "p", Runs: tx("G020x")}}, {T: tc}, {T: td}}}
+}
+
+// witnessDocs are minimal documents for the four quoted defects (and their ODT twins),
+// and for vertical merges beside column spans.
 func witnessDocs() []*ldoc {
 	t1 := &ltable{R: 1, C: 1, Cells: map[[2]int]*lcell{{0, 0}: oneCell("W001x", "W002x")}, Cover: map[[2]int][2]int{}}
 	t2 := &ltable{R: 1, C: 1, Cells: map[[2]int]*lcell{{0, 0}: oneCell("W003x")}, Cover: map[[2]int][2]int{}}
@@ -373,6 +470,8 @@ func witnessDocs() []*ldoc {
 		// ODT: text, span, text
 		mk("odt", lblock{P: &lpara{Kind: "p", Runs: []lrun{{Items: []inl{{Kind: "t", Tok: "W001x"}}}, {Wrap: "span", Items: []inl{{Kind: "t", Tok: "W002x"}}}, {Items: []inl{{Kind: "t", Tok: "W003x"}}}}}}),
 		mk("odt", lblock{T: t1}, lblock{T: t2}, lblock{P: &lpara{Kind: "p", Runs: tx("W004x")}}),
+		mergeWitness("docx"),
+		mergeWitness("odt"),
 	}
 }
 
@@ -399,12 +498,16 @@ func runWitness(c *hx.Ctx, wi int, keep bool) {
 	pan := hx.Safe(func() {
 		if d.Format == "docx" {
 			if rd, err := docx.Open(path); err == nil {
-				implLine = dumpDocx(rd.VerifElements())
+				els := rd.VerifElements()
+				implLine = dumpDocx(els)
+				out.Parsed, out.HaveParsed = parsedDocx(els), true
 				rd.Close()
 			}
 		} else {
 			if rd, err := odt.Open(path); err == nil {
-				implLine = dumpOdt(rd.VerifElements())
+				els := rd.VerifElements()
+				implLine = dumpOdt(els)
+				out.Parsed, out.HaveParsed = parsedOdt(els), true
 				rd.Close()
 			}
 		}
@@ -431,7 +534,9 @@ func Run(c *hx.Ctx) {
 	c.Rep.Rule = "random logical documents (1..12 blocks: paragraphs with 1..4 runs/spans of mixed inline content incl. hyperlink/ins/sdt wrappers, " +
 		"headings via built-in/custom/inherited/name/outline/cyclic styles, in a third of the styled documents a style family (1-2 root heading styles, 2-5 custom styles derived from them 1-3 deep, " +
 		"each inheriting or overriding the level with an outline level of its own) whose styles are used by headings and table-cell paragraphs in random order and repetition, multi-level lists, tables with multi-paragraph cells, merges and nested tables, " +
-		"optional styles/numbering/header/footer/meta parts, shuffled part order), every text piece a unique token, rendered by the harness's own DOCX and ODT writers " +
+		"optional styles/numbering/header/footer/meta parts, shuffled part order); plus documents of 1..3 tables that COMBINE merges (2..5 rows x 3..6 grid columns, 1..3 vertical merges of 2..4 rows placed at random, " +
+		"then every row partitioned on its own into cells 1..3 columns wide, so the rows a vertical merge runs through hold different numbers of cells to its left: column span in the start row only, in a continuation row only, in both with other widths) " +
+		"between paragraphs, headings and plain tables; every text piece a unique token, rendered by the harness's own DOCX and ODT writers " +
 		"(even index = DOCX, odd = ODT); plus fixed witnesses of the quoted defects and a stream of damaged packages; non-trivial = Document() has at least one element"
 	for wi := range witnessDocs() {
 		runWitness(c, wi, false)
@@ -439,6 +544,9 @@ func Run(c *hx.Ctx) {
 	n := c.N(700, 12000)
 	for i := 0; i < n; i++ {
 		RunDoc(c, i, false)
+	}
+	for i, n := 0, c.N(240, 4000); i < n; i++ {
+		RunDoc(c, gridBase+i, false)
 	}
 	for i := 0; i < c.N(100, 1500); i++ {
 		malformed(c, i)
